@@ -114,6 +114,11 @@ func (db *DB) Merge() error {
 			verifhook.Point("merge.scan", logRecord.Key)
 			// 比较内存中索引的最新数据, 判断是否为有效数据
 			pos := db.index.Get(logRecord.Key)
+			if pos == nil || pos.Fid != dataFile.ID ||
+				pos.Offset != logRecordPos.Offset || pos.BlockID != logRecordPos.BlockID {
+				// 索引可能已指向尚未提交的批处理的记录, 该批处理崩溃后会被丢弃, 其覆盖的旧记录仍须保留
+				pos = db.unsealedOldPos(logRecord.Key)
+			}
 			if pos != nil && pos.Fid == dataFile.ID &&
 				pos.Offset == logRecordPos.Offset && pos.BlockID == logRecordPos.BlockID {
 				// 重写后的记录不再属于任何批处理
